@@ -60,12 +60,25 @@ def iarr(l):
 
 def make_model(cfg):
     import gstools as gs
+    if cfg.get("temporal"):
+        # spatio-temporal model: dim = spatial_dim + 1, the LAST anis entry is the time ratio, no rotation into time
+        sd = cfg["dim"] - 1
+        kw = dict(temporal=True, spatial_dim=sd, var=cfg["var"], len_scale=cfg["len_scale"], anis=list(cfg["anis"]))
+        if sd > 1:
+            kw["angles"] = list(cfg["angles"])[: n_angles(sd)]
+        kw.update(cfg.get("opt", {}))
+        return getattr(gs, cfg["cls"])(**kw)
     kw = dict(dim=cfg["dim"], var=cfg["var"], len_scale=cfg["len_scale"])
     if cfg["dim"] > 1:
         kw["anis"] = list(cfg["anis"])
         kw["angles"] = list(cfg["angles"])
     kw.update(cfg.get("opt", {}))
     return getattr(gs, cfg["cls"])(**kw)
+
+
+def pick_dim(rng):
+    """field dimension 1-3, and now and then 4 (3 spatial axes + time)"""
+    return 4 if rng.random() < 0.07 else int(rng.integers(1, 4))
 
 
 def n_angles(dim):
@@ -84,6 +97,11 @@ def gen_model_cfg(rng, dim, classes, rotated=None):
     if rotated is None:
         rotated = rng.random() < 0.5
     angles = [float(x) for x in (rng.uniform(-math.pi, math.pi, n_angles(dim)) if rotated else np.zeros(n_angles(dim)))]
+    temporal = bool(dim == 4 or (dim >= 2 and rng.random() < 0.3))
+    if temporal:
+        angles = angles[: n_angles(dim - 1)] + [0.0] * (n_angles(dim) - n_angles(dim - 1))     # no rotation into the time axis
+        if anis[-1] == 1.0 or rng.random() < 0.5:
+            anis[-1] = float(np.exp(rng.uniform(-1.2, 1.2)))                                    # time ratio: a generic real number
     opt = {}
     if cls == "Matern":
         opt["nu"] = float(rng.choice([0.5, 1.0, 1.5, 2.5]))
@@ -96,7 +114,7 @@ def gen_model_cfg(rng, dim, classes, rotated=None):
     if cls == "Integral":
         opt["nu"] = float(rng.choice([1.0, 2.0]))
     return dict(cls=cls, dim=dim, var=float(np.exp(rng.uniform(-1, 1))), len_scale=float(np.exp(rng.uniform(-0.5, 2))),
-                anis=anis, angles=angles, opt=opt)
+                anis=anis, angles=angles, opt=opt, temporal=temporal)
 
 
 def gen_period(rng, dim):
@@ -113,7 +131,7 @@ def gen_period(rng, dim):
 
 
 def gen_mode_no(rng, dim, big):
-    hi = {1: 65, 2: 17, 3: 7}[dim] if big else {1: 17, 2: 7, 3: 4}[dim]
+    hi = {1: 65, 2: 17, 3: 7, 4: 3}[dim] if big else {1: 17, 2: 7, 3: 4, 4: 3}[dim]
     u = rng.random()
     if u < 0.2:
         return [int(2 * rng.integers(1, hi))]
@@ -237,7 +255,7 @@ def corr_functions(ctx, drv, rng, tie_bad):
     # generator construction: every derived attribute
     nbit = ntot = 0
     for i in range(n_cfg):
-        dim = int(rng.integers(1, 4))
+        dim = pick_dim(rng)
         classes = ANALYTIC + (NUMERIC if (ctx.tier == "thorough" and i % 4 == 0) else [])
         cfg = gen_model_cfg(rng, dim, classes)
         period = gen_period(rng, dim)
@@ -686,7 +704,7 @@ def corr_histories(ctx, drv, rng, tie_bad):
     n_ops_total = 0
     tags = {}
     for h in range(n_hist):
-        dim = int(rng.integers(1, 4))
+        dim = pick_dim(rng)
         classes = ANALYTIC
         cfg = gen_model_cfg(rng, dim, classes)
         period = gen_period(rng, dim)
@@ -762,6 +780,36 @@ def run_probe_config(case):
     srf = gs.SRF(model, generator="Fourier", period=list(unhex(case["period"])), mode_no=case["mode_no"], seed=case["seed"])
     pts = [unhex(p) for p in case["pts"]]
     worst, det = periodic_check(srf, pts, range(dim), case["qs"])
+    # the same points in another container / memory layout, a deep copy of the object, and other objects created and
+    # evaluated in between: the field is a function of the object's own parameters and of the point coordinates only
+    if worst <= 1.0 and case.get("layout"):
+        import copy
+        base = np.asarray(srf(tuple(pts), store=False, post_process=False), dtype=float)
+        arr = np.array(pts, dtype=float)
+        lay = case["layout"]
+        if lay == "array_c":
+            alt = np.ascontiguousarray(arr)
+        elif lay == "array_f":
+            alt = np.asfortranarray(arr)
+        elif lay == "strided":
+            big = np.zeros((dim, 2 * arr.shape[1] + 1))
+            big[:, ::2][:, : arr.shape[1]] = arr
+            alt = big[:, ::2][:, : arr.shape[1]]
+        elif lay == "transposed":
+            alt = np.ascontiguousarray(arr.T).T
+        else:
+            alt = [list(map(float, p)) for p in pts]
+        variants = [("positions as %s" % lay, np.asarray(srf(alt, store=False, post_process=False), dtype=float))]
+        variants.append(("copy.deepcopy of the SRF", np.asarray(copy.deepcopy(srf)(tuple(pts), store=False, post_process=False), dtype=float)))
+        other = gs.SRF(gs.Exponential(dim=2, len_scale=[2.0, 0.7], angles=0.3), generator="Fourier", period=[3.0, 5.0], mode_no=[4, 6], seed=9)
+        other((np.array([0.1, 0.2]), np.array([0.3, 0.4])))
+        other.generator.period = [4.0, 4.5]
+        variants.append(("after another Fourier SRF was created, evaluated and changed", np.asarray(srf(tuple(pts), store=False, post_process=False), dtype=float)))
+        for name, f in variants:
+            if f.shape != base.shape or not C.bit_equal(f, base):
+                worst = float("inf")
+                det = dict(variant=name, base=hexl(base[:4]), got=hexl(np.ravel(f)[:4]))
+                break
     if case.get("structured"):
         # structured mesh: the same statement on a grid of off-grid coordinates
         axes_pts = [p[:3] for p in pts]
@@ -785,14 +833,17 @@ def probe_configs(ctx, rng):
     n = 4000 if ctx.tier == "thorough" else 900
     worst_seen = 0.0
     for i in range(n):
-        dim = int(rng.integers(1, 4))
+        dim = pick_dim(rng)
         classes = ANALYTIC + (NUMERIC if (ctx.tier == "thorough" and i % 5 == 0) else [])
         cfg = gen_model_cfg(rng, dim, classes)
         period = gen_period(rng, dim)
         mode_no = gen_mode_no(rng, dim, big=True)
-        pts = gen_points(rng, dim, period, int(rng.integers(3, 9)))
+        # point counts: 1, 2, exactly dim, dim + 1 (shape coincidences) and random
+        npts = int(rng.choice([1, 2, dim, dim + 1, int(rng.integers(3, 9)), int(rng.integers(3, 9))]))
+        pts = gen_points(rng, dim, period, npts)
         case = dict(kind="config", model=cfg, period=hexl(period), mode_no=mode_no, seed=int(rng.integers(0, 2 ** 31)),
-                    pts=[hexl(p) for p in pts], qs=[1, -1, int(rng.integers(2, 6))], structured=bool(rng.random() < 0.3))
+                    pts=[hexl(p) for p in pts], qs=[1, -1, int(rng.integers(2, 6))], structured=bool(rng.random() < 0.3),
+                    layout=(str(rng.choice(["array_c", "array_f", "strided", "transposed", "lists"])) if rng.random() < 0.4 else None))
         key = (cfg["cls"], dim, tuple(fill(mode_no, dim)), any(a != 0 for a in cfg["angles"]), tuple(a != 1 for a in cfg["anis"]))
         ctx.count(key if min(fill(mode_no, dim)) >= 2 else None,
                   hist=dict(op="probe:config", dim=dim, cls=cfg["cls"], rotated=any(a != 0 for a in cfg["angles"])))
@@ -897,7 +948,7 @@ def probe_histories(ctx, rng):
     ctx.notes.append("float-arange-hostile (count, period) pairs used in history probes: %d" % len(hostile))
     worst_seen = 0.0
     for i in range(n + len(hostile)):
-        dim = int(rng.integers(1, 4))
+        dim = pick_dim(rng)
         cfg = gen_model_cfg(rng, dim, ANALYTIC)
         period = gen_period(rng, dim)
         mode_no = gen_mode_no(rng, dim, big=False)
@@ -1203,7 +1254,7 @@ def probe_present(ctx, rng):
     n = 2500 if ctx.tier == "thorough" else 500
     worst_seen = 0.0
     for i in range(n):
-        dim = int(rng.integers(1, 4))
+        dim = pick_dim(rng)
         kind = "srf" if rng.random() < 0.65 else "gen"
         cfg = gen_model_cfg(rng, dim, ANALYTIC)
         ops = gen_present_history(rng, dim, int(rng.integers(3, 8)), kind)
@@ -1371,7 +1422,7 @@ def corr_isometrize(ctx, drv, rng, tie_bad):
     tolerance 64 eps * sum of |M||x| (a 2- or 3-term product of entries that are products of <= 3 cos/sin values and 1/ratio)"""
     cases = near_identity_cfgs(rng, "quick")
     for i in range(60):
-        dim = int(rng.integers(1, 4))
+        dim = pick_dim(rng)
         cases.append(dict(kind="iso", j=0, how="random", model=gen_model_cfg(rng, dim, ["Gaussian"]),
                           pts=[hexl(rng.uniform(-1.0, 1.0, 4)) for _ in range(dim)]))
     for case in cases:
@@ -1399,6 +1450,116 @@ def corr_isometrize(ctx, drv, rng, tie_bad):
             ctx.violation("correspondence: CovModel.main_axes vs extracted model", "main axes differ", dict(case),
                           key="corr:main_axes", no_input=True)
             break
+
+
+# ---- SRF.mesh: meshio meshes, points / centroids, direction strings in every order and index lists -------------------
+
+def mesh_directions(dim):
+    """every ordered selection of `dim` mesh axes, as a string and as an index list (plus longer strings: truncated)"""
+    import itertools
+    out = []
+    for sel in itertools.permutations(range(3), dim):
+        out.append(("".join("xyz"[i] for i in sel), list(sel)))
+        out.append((list(sel), list(sel)))
+    if dim < 3:
+        for sel in itertools.permutations(range(3), 3):
+            out.append(("".join("xyz"[i] for i in sel), list(sel)[:dim]))      # more directions than needed: the first dim count
+    if dim == 3:
+        out.append(("all", [0, 1, 2]))
+    return out
+
+
+def run_probe_mesh(case):
+    """field generated on a meshio mesh = field of a fresh SRF at the selected coordinates (direction order!), and it is
+    unchanged when the mesh is moved by q periods along a main axis of the model (expressed in mesh coordinates)"""
+    import meshio
+    import gstools as gs
+    cfg = case["model"]
+    dim = cfg["dim"]
+    period = list(unhex(case["period"]))
+    sel = case["select"]
+    direction = case["direction"]
+    pts3 = np.array([unhex(p) for p in case["points3"]], dtype=float).T          # (n, 3)
+    cells = [(c["type"], np.array(c["data"], dtype=int)) for c in case["cells"]]
+
+    def make_srf():
+        return gs.SRF(make_model(cfg), generator="Fourier", period=period, mode_no=case["mode_no"], seed=case["seed"])
+
+    def locations(p3):
+        if case["points"] == "points":
+            return p3
+        return np.vstack([np.mean(p3[d], axis=1) for _, d in cells])
+
+    def on_mesh(srf, p3):
+        mesh = meshio.Mesh(p3.copy(), [(t, d.copy()) for t, d in cells])
+        out = np.asarray(srf.mesh(mesh, points=case["points"], direction=direction, name="f", store=False, post_process=False), dtype=float)
+        data = mesh.point_data["f"] if case["points"] == "points" else np.concatenate(mesh.cell_data["f"])
+        return out, np.asarray(data, dtype=float)
+
+    srf = make_srf()
+    F, stored = on_mesh(srf, pts3)
+    amp = amp_of(srf.generator)
+    worst, det = 0.0, None
+
+    def cmp(name, a, b):
+        nonlocal worst, det
+        r = float(np.max(np.abs(a - b))) / (RTOL_FIELD * amp) if a.shape == b.shape else float("inf")
+        if not np.isfinite(r):
+            r = float("inf")
+        if r > worst:
+            worst, det = r, dict(what=name, max_abs_diff=float(np.max(np.abs(a - b))) if a.shape == b.shape else None, amp=amp,
+                                 on_mesh=hexl(a.ravel()[:4]), expected=hexl(b.ravel()[:4]))
+
+    loc = locations(pts3)
+    pos = tuple(loc[:, i].copy() for i in sel)                # model axis d <- mesh axis sel[d]
+    cmp("mesh(direction=%r) vs a fresh SRF at the selected coordinates (model axis d <- mesh axis select[d])" % (direction,),
+        F, np.asarray(make_srf()(pos, store=False, post_process=False), dtype=float))
+    cmp("field stored in the mesh vs returned field", stored, F)
+    axes = np.asarray(srf.model.main_axes(), dtype=float)
+    for ax in range(dim):
+        for q in case["qs"]:
+            v = np.zeros(3)
+            for d in range(dim):
+                v[sel[d]] = q * period[ax] * axes[ax, d]
+            F2, _ = on_mesh(srf, pts3 + v[None, :])
+            cmp("mesh moved by %d period(s) along main axis %d of the model" % (q, ax), F2, F)
+    return worst, det
+
+
+def probe_mesh(ctx, rng):
+    try:
+        import meshio  # noqa: F401
+    except Exception as e:      # pragma: no cover
+        ctx.notes.append("meshio not importable, SRF.mesh probes skipped: %r" % (e,))
+        return
+    reps = 4 if ctx.tier == "thorough" else 1
+    worst_seen, n = 0.0, 0
+    for rep in range(reps):
+        for dim in (1, 2, 3):
+            for direction, sel in mesh_directions(dim):
+                cfg = gen_model_cfg(rng, dim, ANALYTIC)
+                period = [float(x) for x in rng.permutation([7.0, 10.0, 13.5])[:dim] * float(np.exp(rng.uniform(-0.5, 0.5)))]
+                npt = int(rng.choice([3, 4, dim + 3, 9]))
+                p3 = rng.uniform(-15.0, 15.0, (npt, 3))
+                cells = [dict(type="triangle", data=[[int(x) for x in rng.choice(npt, 3, replace=False)] for _ in range(int(rng.integers(1, 5)))])]
+                if rng.random() < 0.5:
+                    cells.append(dict(type="line", data=[[int(x) for x in rng.choice(npt, 2, replace=False)] for _ in range(int(rng.integers(1, 4)))]))
+                case = dict(kind="mesh", model=cfg, period=hexl(period), mode_no=gen_mode_no(rng, dim, big=False), seed=int(rng.integers(1000)),
+                            direction=direction, select=sel, points=str(rng.choice(["points", "centroids"])),
+                            points3=[hexl(p3[:, i]) for i in range(3)], cells=cells, qs=[1, -2])
+                n += 1
+                ctx.count(("mesh", dim, str(direction), case["points"]), hist=dict(op="probe:mesh", dim=dim, direction=str(direction), points=case["points"]))
+                try:
+                    worst, det = run_probe_mesh(case)
+                except Exception as e:
+                    ctx.violation("probe: SRF.mesh", "implementation raised %s: %s" % (type(e).__name__, e), case, key="probe:mesh:exception")
+                    continue
+                worst_seen = max(worst_seen, worst if np.isfinite(worst) else 0.0)
+                if worst > 1.0:
+                    ctx.violation("probe: SRF(generator='Fourier').mesh(meshio mesh, points=%s, direction=%r)" % (case["points"], direction),
+                                  "%s: %s" % (det["what"], json.dumps(det)), dict(case, detail=det),
+                                  key="probe:mesh:%s" % ("periodicity" if "moved by" in det["what"] else "selected-coordinates"))
+    ctx.notes.append("SRF.mesh probes: %d, worst deviation / (1e-9*AMP) = %.3g" % (n, worst_seen))
 
 
 def run_probe_subtle(case):
@@ -1489,6 +1650,7 @@ def run(ctx):
         probe_histories(ctx, C.Rng(ctx.seed, "C17/histories"))
         probe_present(ctx, C.Rng(ctx.seed, "C17/present"))
         probe_near_identity(ctx, C.Rng(ctx.seed, "C17/near"))
+        probe_mesh(ctx, C.Rng(ctx.seed, "C17/mesh"))
         probe_subtle(ctx, C.Rng(ctx.seed, "C17/subtle"))
         probe_bare_edit(ctx, C.Rng(ctx.seed, "C17/bare"))
         t2 = time.time()
@@ -1514,7 +1676,7 @@ def replay(ctx, path):
     kind = case.get("kind")
     setup_ctx(ctx)
     fn = dict(config=run_probe_config, history_probe=run_probe_history, subtle=run_probe_subtle, present=run_probe_present, bare_edit=run_probe_bare_edit,
-              near_identity=run_probe_near_identity).get(kind)
+              near_identity=run_probe_near_identity, mesh=run_probe_mesh).get(kind)
     if fn is None:
         run(ctx)
         return ctx.finish()
